@@ -16,18 +16,24 @@ use statime::{Clock, OverlayClock};
 use vh::collab::{dur_from_bits, time_bits, time_from_bits};
 use vh::world::splitmix;
 
+/// the underlying clock: bits (2^-32 ns); every read returns the current value and then moves the clock on by `tick` whole
+/// nanoseconds (a real clock never stands still between two reads inside one call); `last` is the value of the latest read
 #[derive(Clone)]
-struct Under(Rc<Cell<u128>>); // bits, 2^-32 ns
+struct Under { t: Rc<Cell<u128>>, tick: u128, last: Rc<Cell<u128>> }
 impl Clock for Under {
     type Error = ();
-    fn now(&self) -> Time { time_from_bits(self.0.get()) }
+    fn now(&self) -> Time { let v = self.t.get(); self.t.set(v + (self.tick << 32)); self.last.set(v); time_from_bits(v) }
     fn step_clock(&mut self, _: Duration) -> Result<Time, ()> { Err(()) }
     fn set_frequency(&mut self, _: f64) -> Result<Time, ()> { Err(()) }
     fn set_properties(&mut self, _: &TimePropertiesDS) -> Result<(), ()> { Ok(()) }
 }
 
-/// exact model in units of 10^-9 ns: reading relative to start; mppm = ppm * 1000
-struct Exact { r: i128, mppm: i128, elapsed_ns: i128 }
+/// exact model in units of 10^-9 ns: the reading (relative to start) is r0 at underlying time u0 (whole ns since start) and
+/// advances (1 + uppm / 10^12) units per unit of underlying time; uppm = ppm * 10^6
+struct Exact { r0: i128, u0: i128, uppm: i128 }
+impl Exact {
+    fn at(&self, u: i128) -> i128 { self.r0 + (u - self.u0) * 1_000_000_000 + ((u - self.u0) * self.uppm) / 1000 }
+}
 
 fn to_units(t: Time, start_ns: i128) -> i128 {
     // reading in 1e-9 ns relative to start, from 2^-32 ns bits (rounded)
@@ -43,36 +49,48 @@ fn check(what: &str, got: i128, want: i128, elapsed_ns: i128) -> Option<String> 
     if (got - want).abs() > tol { Some(format!("{}: reading {} ns, exact {} ns (difference {} ns)", what, got as f64 / 1e9, want as f64 / 1e9, (got - want) as f64 / 1e9)) } else { None }
 }
 
-/// run a sequence of ops; ops: ("adv", ns) ("freq", mppm) ("step", ns). Returns first failure.
-fn run(start_ns: u128, ops: &[(String, i128)]) -> Option<String> {
-    let under = Under(Rc::new(Cell::new(start_ns << 32)));
+/// run a sequence of ops; ops: ("adv", ns) ("freq", mppm) ("ufreq", micro-ppm) ("step", ns); the underlying clock moves by `tick`
+/// ns at every read. Returns first failure.
+fn run_tick(start_ns: u128, ops: &[(String, i128)], tick: u128) -> Option<String> {
+    let under = Under { t: Rc::new(Cell::new(start_ns << 32)), tick, last: Rc::new(Cell::new(start_ns << 32)) };
     let mut ov = OverlayClock::new(under.clone());
-    let mut m = Exact { r: 0, mppm: 0, elapsed_ns: 0 };
+    let mut m = Exact { r0: 0, u0: 0, uppm: 0 };
     let s = start_ns as i128;
+    let last_u = |u: &Under| -> i128 { (u.last.get() >> 32) as i128 - s };
+    let slack = 1_000_000_000i128;      // 1 ns
     for (i, (k, x)) in ops.iter().enumerate() {
         let before = to_units(ov.now(), s);
+        let ub = last_u(&under);
         let r = std::panic::catch_unwind(std::panic::AssertUnwindSafe(|| -> Option<String> {
             match k.as_str() {
                 "adv" => {
-                    under.0.set(under.0.get() + ((*x as u128) << 32));
-                    m.r += x * (1_000_000_000 + m.mppm);
-                    m.elapsed_ns += x;
+                    under.t.set(under.t.get() + ((*x as u128) << 32));
                     None
                 }
-                "freq" => {
-                    let ret = ov.set_frequency(*x as f64 / 1000.0).unwrap();
-                    m.mppm = *x;
+                "freq" | "ufreq" => {
+                    let up = if k == "freq" { *x * 1000 } else { *x };
+                    let ret = ov.set_frequency(up as f64 / 1e6).unwrap();
+                    // the call anchors the new rate at one instant inside the call; the reading is continuous there
+                    let ua = last_u(&under);
+                    m = Exact { r0: m.at(ua), u0: ua, uppm: up };
                     let now = to_units(ov.now(), s);
-                    if (now - before).abs() > 2_000_000_000 { return Some(format!("op {}: set_frequency moved the reading by {} ns", i, (now - before) as f64 / 1e9)); }
-                    if (to_units(ret, s) - now).abs() > 1_000_000_000 { return Some(format!("op {}: set_frequency returned {} ns but the clock reads {} ns", i, to_units(ret, s) as f64 / 1e9, now as f64 / 1e9)); }
+                    let uc = last_u(&under);
+                    let moved = (now - before) - (m.at(uc) - m.at(ub));
+                    if moved.abs() > 2 * slack { return Some(format!("op {}: set_frequency moved the reading by {} ns", i, moved as f64 / 1e9)); }
+                    let r = to_units(ret, s);
+                    if r < m.at(ub) - slack || r > m.at(uc) + slack { return Some(format!("op {}: set_frequency returned {} ns, the clock read {} ns before and {} ns after the call", i, r as f64 / 1e9, before as f64 / 1e9, now as f64 / 1e9)); }
                     None
                 }
                 "step" => {
                     let ret = ov.step_clock(dur_from_bits(*x << 32)).unwrap();
-                    m.r += x * 1_000_000_000;
+                    let ua = last_u(&under);
+                    m = Exact { r0: m.at(ua) + x * 1_000_000_000, u0: ua, uppm: m.uppm };
                     let now = to_units(ov.now(), s);
-                    if (now - before - x * 1_000_000_000).abs() > 2_000_000_000 { return Some(format!("op {}: step_clock({} ns) moved the reading by {} ns", i, x, (now - before) as f64 / 1e9)); }
-                    if (to_units(ret, s) - now).abs() > 1_000_000_000 { return Some(format!("op {}: step_clock returned {} ns but the clock reads {} ns", i, to_units(ret, s) as f64 / 1e9, now as f64 / 1e9)); }
+                    let uc = last_u(&under);
+                    let moved = (now - before) - (m.at(uc) - m.at(ub));
+                    if (moved - x * 1_000_000_000).abs() > 2 * slack { return Some(format!("op {}: step_clock({} ns) moved the reading by {} ns", i, x, moved as f64 / 1e9)); }
+                    let r = to_units(ret, s);
+                    if r < m.at(ub) - slack || r > m.at(uc) + slack { return Some(format!("op {}: step_clock returned {} ns, the stepped clock reads {} ns after the call", i, r as f64 / 1e9, now as f64 / 1e9)); }
                     None
                 }
                 _ => None,
@@ -84,9 +102,26 @@ fn run(start_ns: u128, ops: &[(String, i128)]) -> Option<String> {
             Ok(None) => {}
         }
         let now = to_units(ov.now(), s);
-        if let Some(e) = check(&format!("after op {} ({} {})", i, k, x), now, m.r, m.elapsed_ns) { return Some(e); }
-        let conv = to_units(ov.time_from_underlying(under.now()), s);
-        if (conv - now).abs() > 1_000_000_000 { return Some(format!("op {}: time_from_underlying gives {} ns, the clock reads {} ns", i, conv as f64 / 1e9, now as f64 / 1e9)); }
+        let u = last_u(&under);
+        if let Some(e) = check(&format!("after op {} ({} {}){}", i, k, x, if tick > 0 { format!(" [underlying clock moving {} ns per read]", tick) } else { String::new() }), now, m.at(u), u) { return Some(e); }
+        let conv = to_units(ov.time_from_underlying(time_from_bits(under.last.get())), s);
+        if (conv - now).abs() > slack { return Some(format!("op {}: time_from_underlying gives {} ns, the clock reads {} ns", i, conv as f64 / 1e9, now as f64 / 1e9)); }
+    }
+    None
+}
+
+/// every sequence is run three ways: (1) as given on a clock that stands still during a call; (2) on a clock that moves 1 us at
+/// every read; (3) with every frequency command p refined into two commands (p - 0.0004 ppm, then p) with no time between them -
+/// in the model that is the same step SetFrequency(p); a servo close to lock sends such nearly equal values
+fn run(start_ns: u128, ops: &[(String, i128)]) -> Option<String> {
+    if let Some(e) = run_tick(start_ns, ops, 0) { return Some(e); }
+    if let Some(e) = run_tick(start_ns, ops, 1000) { return Some(e); }
+    if ops.iter().any(|(k, _)| k == "freq") {
+        let mut fine: Vec<(String, i128)> = vec![];
+        for (k, x) in ops {
+            if k == "freq" { fine.push(("ufreq".to_string(), x * 1000 - 400)); fine.push(("ufreq".to_string(), x * 1000)); } else { fine.push((k.clone(), *x)); }
+        }
+        if let Some(e) = run_tick(start_ns, &fine, 0) { return Some(format!("{} [frequency commands refined into (p - 0.0004 ppm, p)]", e)); }
     }
     None
 }
